@@ -517,7 +517,7 @@ class Interp:
         if isinstance(v, str):
             return VStr(v)
         if isinstance(v, float):
-            return VFloat(z3.RealVal(repr(v))) if v == v and abs(v) != float('inf') else VConst('pyconst', v)
+            return VFloat(z3.Real(self.path.fresh_name('flit'))) if v == v and abs(v) != float('inf') else VConst('pyfloat', v)
         raise OutOfSubset('constant %r' % (v,))
 
     def ev_Name(self, node, fr):
@@ -855,6 +855,10 @@ class Interp:
         return VBool(z3.And(conj))
 
     def compare(self, op, a, b, fr):
+        if (isinstance(a, VConst) and a.kind == 'pyfloat') or (isinstance(b, VConst) and b.kind == 'pyfloat'):
+            return self.path.fresh_bool('floatcmp')          # comparison with inf/nan/float literal: not modelled
+        if (isinstance(a, VFloat) or isinstance(b, VFloat)) and isinstance(op, (ast.Eq, ast.NotEq)):
+            return self.path.fresh_bool('floateq')
         if isinstance(op, ast.Eq):
             return v_eq(a, b)
         if isinstance(op, ast.NotEq):
@@ -955,7 +959,7 @@ class Interp:
             if isinstance(op, ast.Sub):
                 return VFloat(x - y)
             if isinstance(op, ast.Mult):
-                return VFloat(x * y)
+                return VFloat(z3.Real(self.path.fresh_name('fmul')))
             raise OutOfSubset('float op')
         if self.is_intlike(a) and self.is_intlike(b):
             x, y = self.as_int(a), self.as_int(b)
